@@ -36,7 +36,7 @@ def needed_reruns(rec):
     sanitised = {re.sub("[^A-Za-z0-9_]+", "", k.lower()) for k in rec.get("var_names", [])} | set(names.values())
     if sanitised & RESERVED_SANITISED:
         out += [["names"], ["names", "remainder"]]
-    if code.get("ran") and _float_remainders(code.get("code")):
+    if (code.get("ran") and _float_remainders(code.get("code"))) or _sum_refusal(rec):
         out.append(["remainder"])
     return out
 
@@ -136,6 +136,50 @@ def _float_remainders(code_text):
         except ValueError:
             pass
     return bad
+
+
+def choice_literal_sums(code_text):
+    """[(line, exact sum of the written probabilities, float sum left to right)] of every choice"""
+    out = []
+    for line in (code_text or "").split("\n"):
+        ps = re.findall(r"\{([^}]*)\}", line)
+        if not ps:
+            continue
+        try:
+            fl = 0.0
+            for p in ps:
+                fl += float(p)
+            out.append((line.strip(), sum(Fr(p.strip()) for p in ps), fl))
+        except ValueError:
+            pass
+    return out
+
+
+def _sum_refusal(rec):
+    err = (rec.get("code") or {}).get("error") or {}
+    return "add up to more than 1" in str(err.get("message", ""))
+
+
+def float_sum_check(prop, rec):
+    """F34: `_check_probabilities` (added by the repo fix d44d5a5) adds the written probabilities as doubles:
+    exact decimals that sum to at most 1 are refused when the float sum exceeds 1 (0.33+0.56+0.11).
+    Signature: the query is refused with that message, every choice of the generated program has an exact sum
+    <= 1 and some float sum is > 1; repair: with all literals converted to exact rationals first the query
+    reports the specification value."""
+    if rec["status"] != "refused" or not _sum_refusal(rec):
+        return None
+    sums = choice_literal_sums(rec["code"].get("code"))
+    if not sums or any(ex > 1 for _, ex, _ in sums) or not any(fl > 1 for _, _, fl in sums):
+        return None
+    want = _spec_value(rec)
+    if want is None:
+        return None
+    res = _rerun(rec, ["remainder"])
+    got = _answer(res, rec["kind"], fixed_limit=True)
+    if rec["kind"] == "ei" and rec.get("k") == 0:
+        pev = Fr(rec["spec"]["pev"])
+        return True if got is not None and pev != 0 and got == 1 / pev else None
+    return True if got is not None and got == want and _rerun_moments_ok(rec, res) else None
 
 
 def float_remainder(prop, rec):
